@@ -39,7 +39,7 @@ def translate_spec():
             os.remove(old)
 
 
-def run_harness(scn_file, driver, runs, seed, out_file, pb=2, script=None, max_steps=3000, timeout=600):
+def run_harness(scn_file, driver, runs, seed, out_file, pb=2, script=None, max_steps=3000, timeout=600, scripts_file=None):
     """Runs the harness with its restart protocol; returns the recorded lines"""
     state = out_file + '.state'
     for f in (out_file, state):
@@ -52,6 +52,8 @@ def run_harness(scn_file, driver, runs, seed, out_file, pb=2, script=None, max_s
                '--pb', str(pb), '--max-steps', str(max_steps), '--quiet']
         if script is not None:
             cmd += ['--script', ','.join(script)]
+        if scripts_file is not None:
+            cmd += ['--scripts-file', scripts_file]
         try:
             p = subprocess.run(cmd, stdout=subprocess.PIPE, stderr=subprocess.STDOUT, universal_newlines=True, timeout=max(5, timeout - (time.time() - t0)))
         except subprocess.TimeoutExpired:
@@ -150,3 +152,37 @@ def chunk_runs(lines, nchunks):
     for i, (_, ls) in enumerate(runs):
         chunks[i % len(chunks)].extend(ls)
     return [c for c in chunks if c]
+
+
+def model_behaviours(scn, workdir, count, seed=1, fixes=None, timeout=120):
+    """Random complete behaviours of the specification (tlc -simulate), as schedules of thread names for the harness's script driver"""
+    fixes = FIXES if fixes is None else fixes
+    tv.copy_specs(workdir)
+    scen.write_behaviours(scn, fixes, workdir, 'MB')
+    out, rc, wall = tv.run_tlc(workdir, 'MB', workers=1, timeout=timeout, heap='2g', more_args=['-simulate', 'num=%d' % count, '-depth', '600', '-seed', str(seed)])
+    scripts = []
+    for chunk in out.split('"BEHAVIOUR",')[1:]:
+        # balanced << >> starting at the first <<
+        start = chunk.find('<<')
+        depth, i, end = 0, start, None
+        while 0 <= i < len(chunk) - 1:
+            two = chunk[i:i + 2]
+            if two == '<<':
+                depth += 1; i += 2; continue
+            if two == '>>':
+                depth -= 1; i += 2
+                if depth == 0:
+                    end = i
+                    break
+                continue
+            i += 1
+        if end is None:
+            continue
+        try:
+            steps = tv.parse_tla_set(chunk[start:end])
+        except Exception:
+            continue
+        sc = [p for (p, label, atomic) in steps if not label.startswith('z_') and not atomic]
+        if sc not in scripts:
+            scripts.append(sc)
+    return scripts[:count]
